@@ -285,6 +285,77 @@ func runParseErr(p *Program, r *RuleResult) {
 		v = Violated
 	}
 	r.add("parser.newLexer", "error-channel-capacity", v, "", capWhy)
+	// who may report into the error channel: the channel has room for what the generated
+	// parser reports (one error: the grammar has no error productions); any other blocking
+	// sender can fill it and then block the parser forever (Parse drains it only afterwards)
+	g := p.VTA()
+	if useCHA {
+		g = p.CHA()
+	}
+	isGenerated := func(fn *ssa.Function) bool {
+		for fn.Parent() != nil {
+			fn = fn.Parent()
+		}
+		tf := p.Fset.File(fn.Pos())
+		return tf != nil && strings.HasSuffix(tf.Name(), ".y.go")
+	}
+	nSend := 0
+	for _, fn := range p.SrcFuncs {
+		if fn.Pkg == nil || fn.Pkg.Pkg.Path() != parserPkg {
+			continue
+		}
+		for _, b := range fn.Blocks {
+			for _, in := range b.Instrs {
+				snd, ok := in.(*ssa.Send)
+				if !ok {
+					continue
+				}
+				ld, ok := snd.Chan.(*ssa.UnOp)
+				if !ok {
+					continue
+				}
+				if _, n, ok := fieldNameOf(ld.X); !ok || n != "Errors" {
+					continue
+				}
+				nSend++
+				construct := fmt.Sprintf("error-channel-sender#%d", nSend)
+				// all (transitive, depth 2) first-party callers of the sending function must be generated code
+				bad := ""
+				var visit func(f *ssa.Function, depth int)
+				seenF := map[*ssa.Function]bool{}
+				visit = func(f *ssa.Function, depth int) {
+					if seenF[f] || depth > 3 {
+						return
+					}
+					seenF[f] = true
+					for _, caller := range p.SrcFuncs {
+						for _, c := range p.callsIn(caller) {
+							for _, callee := range p.Callees(g, c) {
+								if callee != f {
+									continue
+								}
+								if isGenerated(caller) {
+									continue
+								}
+								if caller.Pkg != nil && caller.Pkg.Pkg.Path() == parserPkg {
+									bad = fmt.Sprintf("%s (hand-written) reports into the parser's error channel at %s: together with the generated parser's own syntax error this exceeds the channel's capacity and the blocking send never returns", fnName(caller), p.instrPos(c))
+								}
+							}
+						}
+					}
+				}
+				visit(fn, 0)
+				if bad != "" {
+					r.add(fnName(fn), construct, Violated, p.instrPos(snd), bad)
+				} else {
+					r.add(fnName(fn), construct, Holds, p.instrPos(snd), "only the generated parser reports errors (at most one per parse: no error productions)")
+				}
+			}
+		}
+	}
+	if nSend == 0 {
+		r.add("parser", "error-channel-sender", Undecided, "", "no send on the lexer's error channel found")
+	}
 	for _, n := range []string{"ParseReader", "ParseString", "ParseFile"} {
 		fn := p.Func(parserPkg, n)
 		ok, why := p.nilSuccessDominated(fn)
